@@ -147,8 +147,8 @@ both('C07', 'c07_hash', HASH_Q, HASH_T, unwind=lambda i: max(i.bytes, 8) + 2, gr
 
 
 # ---------------------------------------------------------------- C09
-CAST_T = [I(8, 1), I(8, 3), I(8, 5), I(16, 1), I(16, 3), I(32, 1), I(32, 3), I(64, 1), I(64, 2), I(64, 3)]
-CAST_Q = [I(8, 1), I(8, 3), I(16, 1), I(16, 3), I(32, 1), I(64, 1), I(64, 2)]
+CAST_T = [I(8, 1), I(8, 3), I(8, 5), I(8, 9), I(16, 1), I(16, 3), I(16, 5), I(32, 1), I(32, 3), I(64, 1), I(64, 2), I(64, 3)]
+CAST_Q = [I(8, 1), I(8, 3), I(8, 9), I(16, 1), I(16, 3), I(32, 1), I(64, 1), I(64, 2)]
 
 
 def _cast_targets(insts):
@@ -619,7 +619,7 @@ OUTSIDE = {
     'C05': ['widths above 320 bits', 'value of wrapping/overflowing shifts for amounts >= BITS on non-power-of-two widths (only flag/None asserted, as the property states)'],
     'C06': ['widths above 320 bits', 'bit / set_bit / power_of_two with index >= BITS'],
     'C07': ['widths above 320 bits'],
-    'C09': ['bnum types outside the 20-type cast set', 'float casts (C14)'],
+    'C09': ['bnum types outside the 24-type cast set', 'float casts (C14)'],
     'C10': ['strings longer than capacity + 2 characters (10 bytes for radix 2 at 8 bits)', 'full-length strings for widths above 16 bits', 'radices not listed at full length (quick tier: 2, 10, 16, 36 and 2..=36 at length <= 3)'],
     'C13': ['From from a primitive wider than the target (README limitation)', 'known finding F5'],
     'C14': ['int -> float above 192 bits (quick) / for non-u64 digit types above 128 bits'],
@@ -674,7 +674,7 @@ CLAIMS = {
     'C09': _claim('As/CastFrom between bnum types of every digit-type combination (wider, narrower, equal, widths that are and are not multiples of the other digit), between '
                   'bnum types and all 12 primitive integers in both directions, from bool and char, and cast_signed/cast_unsigned/to_bits/from_bits satisfy the bit-indexed '
                   '`as` specification out[i] = (i < W_src ? src[i] : sign(src)).',
-                  'bnum types outside the 20-type set {U,I} x {D8x1,3,5, D16x1,3, D32x1,3, D64x1,2,3} (+ D8x17, D64x5 for primitives); float casts are C14.',
+                  'bnum types outside the 24-type set {U,I} x {D8x1,3,5,9, D16x1,3,5, D32x1,3, D64x1,2,3} (+ D8x17, D64x5 for primitives); float casts are C14.',
                   'bit-indexed specification with a symbolic target bit index'),
     'C10': _claim('from_str_radix / FromStr / parse_bytes / from_radix_be / from_radix_le agree with a reference parser (sign, digit values, exact Horner value, representability, '
                   'error kind) on ALL byte strings up to the stated length for the listed radices, including strings one and two characters longer than the capacity (leading zeros).',
